@@ -35,7 +35,7 @@ const (
 func expectedNS(names []string) string {
 	j := strings.Join(names, "/")
 	switch {
-	case j == "sys/ext", strings.HasPrefix(j, "sys/xc"), j == "item/xval":
+	case j == "sys/ext", strings.HasPrefix(j, "sys/xc"), j == "item/xval", j == "sys/xtags":
 		return nsVFX
 	}
 	return nsVF
@@ -190,10 +190,19 @@ func (w *xmlWalk) elem(e *etree.Element, parent *sdcpb.Path, parentNames []strin
 			for k, v := range pf {
 				cpf[k] = v
 			}
+			cdef := defNS
 			for _, a := range c.Attr {
 				if a.Space == "xmlns" {
 					cpf[a.Key] = a.Value
 				}
+				if a.Space == "" && a.Key == "xmlns" {
+					cdef = a.Value
+				}
+			}
+			// every element of a leaf-list resolves to the namespace of the leaf-list (a declaration on one
+			// sibling does not reach the next)
+			if w.honorNS && cdef != expectedNS(cn) {
+				w.out.NsOK = false
 			}
 			if cop := w.operation(c, cpf); cop == "delete" || cop == "remove" {
 				w.out.DelRaw = append(w.out.DelRaw, CanonPath(cp))
@@ -201,7 +210,6 @@ func (w *xmlWalk) elem(e *etree.Element, parent *sdcpb.Path, parentNames []strin
 				continue
 			}
 			ll[l.ID] = append(ll[l.ID], LexDatum(baseType(l.Type), c.Text()))
-			_ = cn
 			continue
 		}
 		if err := w.elem(c, p, names, defNS, pf); err != nil {
